@@ -183,6 +183,8 @@ impl Chan {
                 simcore::sig(0x14);
                 return RdDecision::Data(0);
             }
+            // like a real I/O future: only the most recently registered waker is kept
+            s.rd_wakers.clear();
             s.rd_wakers.push(cx.waker().clone());
             simcore::sig(0x15);
             simcore::log(|| "  chan.read: empty -> park".to_string());
@@ -272,6 +274,7 @@ impl Chan {
         }
         let room = s.cap.saturating_sub(used);
         if room == 0 {
+            s.wr_wakers.clear();
             s.wr_wakers.push(cx.waker().clone());
             simcore::sig(0x25);
             simcore::log(|| "  chan.write: full -> park".to_string());
